@@ -45,6 +45,12 @@ def plan(tier, seed):
     for i in range(nsh):
         shards.append({'name': 'mv_%d' % i, 'kind': 'mv', 'combos': combos[i::nsh], 'reps': reps,
                        'seed': seed * 1000 + 100 + i})
+    big = [(e, p) for e in ENTRY if e in T.JOINS or e.startswith('ft:')
+           for p in ('both', 'left', 'right', 'all_left', 'all_right', 'all_both')]
+    nb = 6
+    for i in range(nb):
+        shards.append({'name': 'mv_big_%d' % i, 'kind': 'mv', 'combos': big[i::nb], 'big': True,
+                       'reps': 1 if tier == 'quick' else 6, 'seed': seed * 1000 + 300 + i})
     return shards
 
 
@@ -77,10 +83,29 @@ def apply_pattern(rng, spec, attr, pattern, side):
     return spec
 
 
-def make_call(rng, entry, pattern, str_dtype=False):
+def big_tables(rng, tok):
+    """Tables whose missing-value cross product has thousands of rows (it crosses every power of two
+    up to 2**14: buffers, block-wise output, 16-bit counters)."""
+    out = []
+    pool = ['a b', 'a b c', 'b c d', 'x y', 'abcd', 'bcde', 'ab', 'c d e f']
+    for side in 'lr':
+        n = rng.choice([45, 64, 70, 100, 129])
+        keys = rng.sample(range(10 * n), n)
+        out.append({'cols': [side + 'id', side + 'attr', side + 'x_str'],
+                    'data': {side + 'id': keys, side + 'attr': [rng.choice(pool) for _ in range(n)],
+                             side + 'x_str': ['v%d' % (i % 7) for i in range(n)]},
+                    'index': None if rng.random() < 0.6 else [i % 9 for i in range(n)],
+                    'dtypes': {side + 'attr': 'object', side + 'x_str': 'object'}})
+    return out[0], out[1], tok
+
+
+def make_call(rng, entry, pattern, str_dtype=False, big=False):
     ed = entry == 'edit_distance_join'
     tok = gen.random_tokenizer(rng, qgram_only=ed)
-    L, R, tok = gen.random_table_pair(rng, tok=tok, max_rows=7, missing=0.0)
+    if big:
+        L, R, tok = big_tables(rng, tok)
+    else:
+        L, R, tok = gen.random_table_pair(rng, tok=tok, max_rows=7, missing=0.0)
     # guarantee at least one row per side so that every pattern can materialise
     for spec, side in ((L, 'l'), (R, 'r')):
         if T.spec_len(spec) == 0:
@@ -97,10 +122,23 @@ def make_call(rng, entry, pattern, str_dtype=False):
     if str_dtype:
         L['dtypes'] = dict(L['dtypes'], lattr='str')
         R['dtypes'] = dict(R['dtypes'], rattr='str')
-    call = {'ltable': L, 'rtable': R, 'l_key': 'lid', 'r_key': 'rid', 'l_attr': 'lattr',
+    lkey, rkey = 'lid', 'rid'
+    if rng.random() < 0.12:
+        # the join attribute of one side is also its key attribute (possible only where the side
+        # holds no missing value: a key has none)
+        side = rng.choice(['l', 'r'])
+        spec = L if side == 'l' else R
+        vals = spec['data'][side + 'attr']
+        if vals and not any(model.is_missing(v) for v in vals):
+            spec['data'][side + 'attr'] = ['%s k%d' % (v, i) for i, v in enumerate(vals)]
+            if side == 'l':
+                lkey = 'lattr'
+            else:
+                rkey = 'rattr'
+    call = {'ltable': L, 'rtable': R, 'l_key': lkey, 'r_key': rkey, 'l_attr': 'lattr',
             'r_attr': 'rattr', 'tok': tok, 'n_jobs': rng.choice([1, 1, 2, 3]),
-            'l_out_attrs': gen.random_out_attrs(rng, L, 'lid', 'lattr'),
-            'r_out_attrs': gen.random_out_attrs(rng, R, 'rid', 'rattr'),
+            'l_out_attrs': gen.random_out_attrs(rng, L, lkey, 'lattr'),
+            'r_out_attrs': gen.random_out_attrs(rng, R, rkey, 'rattr'),
             'out_sim_score': rng.random() < 0.7}
     if rng.random() < 0.06:
         call['show_progress'] = True
@@ -112,7 +150,7 @@ def make_call(rng, entry, pattern, str_dtype=False):
             call['threshold'] = rng.choice([0, 1, 2, 3])
             call['comp_op'] = rng.choice(['<=', '<', '='])
         else:
-            call['threshold'] = gen.random_threshold(rng)
+            call['threshold'] = gen.random_threshold(rng) if not big else rng.choice([0.5, 0.8, 1.0])
             call['allow_empty'] = rng.random() < 0.5
     else:
         kind = entry[3:] if entry.startswith('ft:') else rng.choice(T.FILTERS)
@@ -122,7 +160,8 @@ def make_call(rng, entry, pattern, str_dtype=False):
             m = rng.choice(['JACCARD', 'COSINE', 'DICE', 'OVERLAP'])
             f = {'kind': kind, 'measure': m, 'allow_empty': rng.random() < 0.5,
                  'measure_spelling': gen.spell(rng, m),
-                 'threshold': rng.choice([1, 2]) if m == 'OVERLAP' else gen.random_threshold(rng)}
+                 'threshold': rng.choice([1, 2, 1.0, 1.5]) if m == 'OVERLAP' else
+                 (gen.random_threshold(rng) if not big else rng.choice([0.5, 0.8, 1.0]))}
         call['filter'] = f
         if entry.startswith('ft:'):
             call['api'] = 'filter_tables'
@@ -130,14 +169,14 @@ def make_call(rng, entry, pattern, str_dtype=False):
             call['api'] = 'filter_pair'
         elif entry == 'filter_candset':
             call['api'] = 'filter_candset'
-            call['candset'] = gen.random_candset(rng, L, R, 'lid', 'rid',
+            call['candset'] = gen.random_candset(rng, L, R, lkey, rkey,
                                                  size=rng.choice([1, 3, 8, 20]))
-            call['c_l_key'], call['c_r_key'] = 'l_lid', 'r_rid'
+            call['c_l_key'], call['c_r_key'] = 'l_' + lkey, 'r_' + rkey
         elif entry == 'apply_matcher':
             call['api'] = 'apply_matcher'
-            call['candset'] = gen.random_candset(rng, L, R, 'lid', 'rid',
+            call['candset'] = gen.random_candset(rng, L, R, lkey, rkey,
                                                  size=rng.choice([1, 3, 8, 20, 40]))
-            call['c_l_key'], call['c_r_key'] = 'l_lid', 'r_rid'
+            call['c_l_key'], call['c_r_key'] = 'l_' + lkey, 'r_' + rkey
             call['sim'] = rng.choice(['JACCARD', 'OVERLAP', 'user_len_diff'])
             call['threshold'] = rng.choice([0, 0.3, 0.5, 1])
             call['comp_op'] = rng.choice(['>=', '>', '<=', '<', '=', '!='])
@@ -158,12 +197,12 @@ def run_case(case, rec, ssj=None):
     ssj = ssj or env.load()
     rng = random.Random(case['seed'])
     entry, pattern = case['entry'], case['pattern']
-    call = make_call(rng, entry, pattern, str_dtype=case.get('str_dtype', False))
+    call = make_call(rng, entry, pattern, str_dtype=case.get('str_dtype', False), big=case.get('big', False))
     api = call['api']
     L, R = call['ltable'], call['rtable']
     lvals, rvals = L['data']['lattr'], R['data']['rattr']
-    lk = [model.canon_cell(k) for k in L['data']['lid']]
-    rk = [model.canon_cell(k) for k in R['data']['rid']]
+    lk = [model.canon_cell(k) for k in L['data'][call['l_key']]]
+    rk = [model.canon_cell(k) for k in R['data'][call['r_key']]]
     lmiss = dict((k, model.is_missing(v)) for k, v in zip(lk, lvals))
     rmiss = dict((k, model.is_missing(v)) for k, v in zip(rk, rvals))
     n_missing = sum(lmiss.values()) + sum(rmiss.values())
@@ -215,8 +254,8 @@ def run_case(case, rec, ssj=None):
     if api in ('filter_candset', 'apply_matcher'):
         C = call['candset']
         ids = C['data']['_id']
-        cl = [model.canon_cell(k) for k in C['data']['l_lid']]
-        cr = [model.canon_cell(k) for k in C['data']['r_rid']]
+        cl = [model.canon_cell(k) for k in C['data'][call['c_l_key']]]
+        cr = [model.canon_cell(k) for k in C['data'][call['c_r_key']]]
         miss_ids = [model.canon_cell(i) for i, a, b in zip(ids, cl, cr) if lmiss[a] or rmiss[b]]
         from collections import Counter
         want = Counter(miss_ids)
@@ -247,8 +286,8 @@ def run_case(case, rec, ssj=None):
         return info
     # joins and filter_tables
     view = oracle.TableView(cT) if 'tok' in cT and cT['tok'] else None
-    lp = call.get('l_out_prefix', 'l_') + 'lid'
-    rp = call.get('r_out_prefix', 'r_') + 'rid'
+    lp = call.get('l_out_prefix', 'l_') + call['l_key']
+    rp = call.get('r_out_prefix', 'r_') + call['r_key']
 
     def split(df):
         keys = list(zip([model.canon_cell(v) for v in df[lp].tolist()],
@@ -265,6 +304,10 @@ def run_case(case, rec, ssj=None):
     want = set((a, b) for a in lk for b in rk if lmiss[a] or rmiss[b])
     got = Counter(p for p in kT if p in want)
     rec.count('missing_pairs_expected', len(want))
+    if len(want) > 2048:
+        rec.count('cases_over_2048_missing_pairs')
+    if len(want) > 8192:
+        rec.count('cases_over_8192_missing_pairs')
     for p in want:
         if got.get(p, 0) != 1:
             rec.violation('include', tag + 'allow_missing=True: pair %r with a missing value occurs '
@@ -297,13 +340,17 @@ def run_shard(shard, rec):
         for r in range(shard['reps']):
             case = {'gen': 'mv', 'entry': entry, 'pattern': pattern,
                     'seed': shard['seed'] * 100000 + n, 'str_dtype': False}
+            if shard.get('big'):
+                case['big'] = True
             n += 1
             info = run_case(case, rec, ssj)
+            if shard.get('big'):
+                rec.count('big_cases')
             rec.case(sig=(entry, pattern, case['seed']), nontrivial=info['n_missing'] > 0, n=2)
             rec.add('entry_pattern', (entry, pattern))
         if len(rec.samples) < 2:
             rec.sample({'entry': entry, 'pattern': pattern,
-                        'left_values': make_call(random.Random(case['seed']), entry, pattern)['ltable']['data']['lattr']},
+                        'left_values': make_call(random.Random(case['seed']), entry, pattern)['ltable']['data']['lattr'][:8]},
                        limit=2)
     reach.stop()
     for k, v in reach.anchors(ANCHORS).items():
@@ -327,5 +374,7 @@ def finalize(agg, tier):
 def coverage_extra(agg, tier):
     c = agg['counters']
     return {'missing_pairs_expected': c.get('missing_pairs_expected', 0),
+            'cases_over_2048_missing_pairs': c.get('cases_over_2048_missing_pairs', 0),
+            'cases_over_8192_missing_pairs': c.get('cases_over_8192_missing_pairs', 0),
             'missing_candset_rows': c.get('missing_candset_rows', 0),
             'entry_points_x_patterns': len(agg['sets'].get('entry_pattern', ()))}
